@@ -67,6 +67,14 @@ static std::vector<Mut> mutations(const Seed& s, bool thorough, bool all_bytes) 
         for (auto v : vals) { std::string vs = v; M.push_back({"card-value=" + vs + ":" + where, [off, key, vs](const Seed& s) { fr::Bytes b = s.bytes; std::string k = key; k.resize(8, ' '); char line[96]; snprintf(line, sizeof line, "%s= %20s", k.c_str(), vs.c_str()); set_card(b, off, line); return b; }}); }
       }
       M.push_back({"card-rename:" + where, [off](const Seed& s) { fr::Bytes b = s.bytes; b[off] = 'Z'; return b; }});
+      // legal FITS that the library itself never writes: a card that is entirely blank, a blank keyword with text, a blank card
+      // inserted in front of this one, a COMMENT / HISTORY / CONTINUE card inserted in front of this one
+      M.push_back({"card-all-blank:" + where, [off](const Seed& s) { fr::Bytes b = s.bytes; memset(&b[off], ' ', 80); return b; }});
+      M.push_back({"card-blank-keyword:" + where, [off](const Seed& s) { fr::Bytes b = s.bytes; memset(&b[off], ' ', 8); return b; }});
+      for (const char* ins : {"", "COMMENT   free text", "HISTORY   something happened", "CONTINUE  'more'", "        = 'value without keyword'"}) {
+        std::string text = ins;
+        M.push_back({"card-insert:" + std::string(text.empty() ? "blank" : text.substr(0, text.find(' '))) + (text.compare(0, 8, "        ") == 0 && !text.empty() ? "no-keyword" : "") + ":before-" + where, [off, text](const Seed& s) { fr::Bytes b = s.bytes; size_t blk_end = (off / 2880 + 1) * 2880; if (std::string((const char*)&b[blk_end - 80], 80).find_first_not_of(' ') != std::string::npos) return b; memmove(&b[off + 80], &b[off], blk_end - off - 80); set_card(b, off, text); return b; }});
+      }
     }
   }
   // ---- M2: extensions
@@ -137,6 +145,8 @@ static std::string wf_violation(const Table& t) {   // well-formedness predicate
   }
   uint64_t st = 1;
   for (int i = t.ndim - 1; i >= 0; i--) { if (t.strides[i] != st) return "strides inconsistent with naxes"; st *= t.naxes[i]; }
+  if (t.naux && !t.aux) return "auxiliary-key count without a table of entries";
+  for (uint32_t i = 0; i < t.naux; i++) if (!t.aux[i] || !t.aux[i][0] || !t.aux[i][1]) return vf::fmt("auxiliary entry %u of %u is not populated", i, t.naux);
   return "";
 }
 static volatile double g_sink;
@@ -157,6 +167,10 @@ static void battery(Table& t, const std::string& where) {
     g_sink = t(x.data());
   }
   if (!(t == t)) { bool hasnan = false; for (uint64_t j = 0; j < t.get_ncoeffs(); j++) if (std::isnan(t.coefficients[j])) hasnan = true; for (uint32_t i = 0; i < nd; i++) for (uint64_t j = 0; j < t.nknots[i]; j++) if (std::isnan(t.knots[i][j])) hasnan = true; if (!hasnan) H->violation("loaded-table-not-equal-to-itself", where); }
+  // the key store of the table that was read: walk it, look up an absent key, add and remove one
+  for (size_t i = 0; i < t.get_naux_values(); i++) { g_sink = strlen(t.get_aux_key(i)) + strlen(t.get_aux_value(t.get_aux_key(i)) ? t.get_aux_value(t.get_aux_key(i)) : ""); }
+  if (t.get_aux_value("NOSUCHKY")) H->violation("absent-key-found-after-read", where);
+  { int dummy = 0; if (t.read_key("NOSUCHKY", dummy)) H->violation("absent-key-found-after-read", where); t.write_key("ADDEDKEY", 7); int back = 0; if (!t.read_key("ADDEDKEY", back) || back != 7) H->violation("key-store-broken-after-read", where); t.remove_key("ADDEDKEY"); }
   auto buf = t.write_fits_mem();
   { Table u; u.read_fits_mem(buf.first, buf.second); if (!(u == t) && wf_violation(t).empty()) { bool hasnan = false; for (uint64_t j = 0; j < t.get_ncoeffs(); j++) if (std::isnan(t.coefficients[j])) hasnan = true; if (!hasnan) H->violation("loaded-table-does-not-survive-reserialisation", where); } }
   free(buf.first);
@@ -295,7 +309,7 @@ int main(int argc, char** argv) {
   vf::Harness h("C07", argc, argv);
   H = &h;
   h.meta("level", "fault_enumeration");
-  h.meta("rule", "three valid seed files from the independent writer (1-d; 2-d with aux keys; 3-d with custom EXTENTS and PERIODn); every single deviation of: each header card of each HDU (delete, duplicate, blank value, rename, 12 replacement values for structural keys), each extension (drop, duplicate, swap with every later one, resize -1/+1/+400, retarget or junk EXTNAME, change BITPIX), each knot vector (NaN/+-inf at first/middle/last, descending, one inversion, all equal, huge), truncation at every block edge, every card edge and +-1 byte around every HDU boundary, appended garbage, and bit flips {01,80,FF} of every byte of every header block and of the first/last data block (seed 1 in quick, all seeds in thorough), plus foreign inputs, plus space 'shapes': 819 self-consistent files of 1..3 dimensions with every combination of per-dimension (order, coefficient count) from {(0,1),(1,2),(1,6),(3,4),(3,7) well-formed; (1,1),(3,3),(3,1),(2,2) too few coefficients} whose NAXISn / ORDERn / KNOTSn lengths agree with each other; each file through read_fits_mem, read_fits, constructor, and both C readers; failure => object empty, reusable for the valid seed, destructible; success => well-formedness predicate then battery (lookup, evaluations at margins/knots/NaN/inf, ==, re-serialisation, permutation, destruction) under ASan/UBSan; distinct = (mutation class, entry point, outcome, failure message)");
+  h.meta("rule", "three valid seed files from the independent writer (1-d; 2-d with aux keys; 3-d with custom EXTENTS and PERIODn); every single deviation of: each header card of each HDU (delete, duplicate, blank value, rename, 12 replacement values for structural keys, whole card blanked, keyword blanked, a blank / COMMENT / HISTORY / CONTINUE / keyword-less card inserted in front of it), each extension (drop, duplicate, swap with every later one, resize -1/+1/+400, retarget or junk EXTNAME, change BITPIX), each knot vector (NaN/+-inf at first/middle/last, descending, one inversion, all equal, huge), truncation at every block edge, every card edge and +-1 byte around every HDU boundary, appended garbage, and bit flips {01,80,FF} of every byte of every header block and of the first/last data block (seed 1 in quick, all seeds in thorough), plus foreign inputs, plus space 'shapes': 819 self-consistent files of 1..3 dimensions with every combination of per-dimension (order, coefficient count) from {(0,1),(1,2),(1,6),(3,4),(3,7) well-formed; (1,1),(3,3),(3,1),(2,2) too few coefficients} whose NAXISn / ORDERn / KNOTSn lengths agree with each other; each file through read_fits_mem, read_fits, constructor, and both C readers; failure => object empty, reusable for the valid seed, destructible; success => well-formedness predicate then battery (lookup, evaluations at margins/knots/NaN/inf, ==, re-serialisation, permutation, destruction) under ASan/UBSan; distinct = (mutation class, entry point, outcome, failure message)");
   h.meta("assumption", "pairs of deviations are not enumerated; the tools' exit status is covered through the same constructor-from-path entry they use");
   h.meta("require_clean_failures", "1000");
   h.meta("require_loaded", "100");
